@@ -819,6 +819,9 @@ class DriverLubaRs232(DriverSerialBase):
                     self._prev_tx_enable_dt = dali_command.param
                 else:
                     self._prev_tx_enable_dt = 0
+                # Frames we transmit and frames we receive share one bus: the
+                # device type applies to the very next frame, whoever sends it
+                self._prev_rx_enable_dt = self._prev_tx_enable_dt
                 luba_tx_info = self.LubaMsgTxConf(
                     tx_id=tx_id, message=dali_command
                 )
@@ -885,6 +888,7 @@ class DriverLubaRs232(DriverSerialBase):
                         self._prev_rx_enable_dt = dali_command.param
                     else:
                         self._prev_rx_enable_dt = 0
+                    self._prev_tx_enable_dt = self._prev_rx_enable_dt
 
                     _LOG.debug(f"Adding DALI command to queue: {dali_command}")
                     self._queue_rx_dali.distribute(dali_command)
